@@ -1,6 +1,7 @@
 """C12 — Footprints respond to each driver in the documented proportion."""
 from harness import model as M, values as V
 from harness.common import traffic_syms, gt_sets
+from sx.core import or_
 
 PROPERTY = "C12"
 LEVEL = "model_checking"
@@ -59,6 +60,15 @@ def _expect(spec, gt, kind, target):
     return exp
 
 
+def _driving_patterns(spec, gt, kind, target, o):
+    """usage patterns through which `target` contributes to the footprint of aggregate `o`"""
+    if kind == "country.average_carbon_intensity":
+        return [p for p in gt["patterns"] if spec["patterns"][p]["country"] == target and spec["patterns"][p]["network"] == o]
+    if kind == "job.data_transferred":
+        return [p for p in gt["patterns"] if spec["patterns"][p]["network"] == o and target in gt["jobs_of_pattern"][p]]
+    return [o]     # device drivers: the aggregate is the usage pattern itself
+
+
 DEFAULTS = {p: d for kind, lst in M.PARAMS.items() for p, d, un in lst}
 NICE = {"power_usage_effectiveness": (1, 2), "average_carbon_intensity": (20, 500),
         "bandwidth_energy_intensity": (0.01, 1), "data_transferred": (10, 5000), "power": (1, 400),
@@ -110,6 +120,17 @@ def h_driver(ctx, skeleton, kind, target, n=2, args=None):
                 a0 = V.phys(getattr(A0[o], f, None))[1].get(t, 0)
                 ctx.eq(b - a, (k - 1) * (a - a0), f"{lab} affine in the driver")
     ctx.require(n_driven > 0, f"{kind}: at least one footprint is driven")
+    # a partially driven aggregate really responds to the driver: the driven part is non-zero as soon as the usage
+    # patterns that bring it in have any traffic (an affine law with slope 0 would satisfy the obligation above)
+    for (o, f), e in exp.items():
+        if e != "affine":
+            continue
+        pats = _driving_patterns(spec, gt, kind, target, o)
+        traffic = sum(envA.get(sl, None) for sl in sym if any(sl.startswith(pn + ".starts[") for pn in pats))
+        ca = V.phys(getattr(A[o], f, None))[1]
+        c0 = V.phys(getattr(A0[o], f, None))[1]
+        part = sum(ca.get(t, 0) - c0.get(t, 0) for t in sorted(set(ca) | set(c0)))
+        ctx.holds(or_(part > 0, traffic <= 0), f"{kind}: {o}.{f} has a non-zero part driven by {target} whenever its usage patterns have traffic")
 
 
 def h_traffic(ctx, skeleton, n=2, args=None):
